@@ -102,7 +102,7 @@ RouterElev(ops, r) ==
      ELSE IF before = {} THEN <<TRUE, r.zin, ex>>
      ELSE <<FALSE, r.zin, FALSE>>
 
-UpdateContracts(g, r, line) ==
+UpdateContractsWF(g, r, line) ==
   LET G == graphs[g]
       x == Ctx(G)
       ops == G.ops
@@ -129,6 +129,16 @@ UpdateContracts(g, r, line) ==
             /\ Chk("C05.WeightsFinite", line, C05Finite(x, r, re[2]))
             /\ Chk("C05.WeightsSumToOne", line, C05SumToOne(x, r, re[2]))
             /\ re[3] => Chk("C05.WeightsProportional", line, C05Proportional(x, r, re[2], last.p))
+
+UpdateContracts(g, r, line) ==
+  LET G == graphs[g]
+      x == Ctx(G)
+      ops == G.ops
+      last == ops[LastGraphOp(ops)]
+      re == RouterElev(ops, r)
+      wf == WellFormedGraph(x, r) /\ WellFormedElev(x, r)
+  IN /\ Chk("TypeOK.TablesInBounds", line, wf)
+     /\ wf => UpdateContractsWF(g, r, line)
 
 KeyOf(ops, zin, mask, bl) == [ops |-> Canon(ops), zin |-> zin, mask |-> mask, bl |-> bl]
 
@@ -200,7 +210,8 @@ SnapGraph(g, nm, s, line) ==
          pkey == KeyOf(PrefixOps(G.ops, i), G.zin, G.mask, G.bl)
      IN /\ Has("C16") =>
             /\ Chk("MACHINERY.PrefixGraphInHistory", line, pkey \in DOMAIN memo)
-            /\ pkey \in DOMAIN memo =>
+            /\ Chk("TypeOK.TablesInBounds", line, WellFormedGraph(x, s))
+            /\ (pkey \in DOMAIN memo /\ WellFormedGraph(x, s)) =>
                  LET m == memo[pkey].core IN
                  /\ Chk("C16.Receivers", line, s.nrec = m.nrec /\ s.rec = m.rec)
                  /\ Chk("C16.DistancesWeights", line, s.rd = m.rd /\ s.rw = m.rw /\ s.wc = m.wc)
@@ -266,7 +277,8 @@ BasinGraphObs(g, b, line) ==
   /\ LET G == graphs[g]
          x == Ctx(G)
          key == [k |-> "bgraph", g |-> G.key]
-     IN /\ Has("C15") =>
+     IN /\ Has("C15") => Chk("TypeOK.BasinGraphInBounds", line, BgWellFormed(x, b))
+        /\ (Has("C15") /\ BgWellFormed(x, b)) =>
              /\ Chk("C15.BasinsAndOutlets", line, BgLabelsOK(x, b))
              /\ Chk("C15.EdgesAreLowestPasses", line, BgEdgesOK(x, b))
              /\ Chk("C15.VirtualRootEdges", line, BgVirtualOK(x, b))
@@ -274,7 +286,7 @@ BasinGraphObs(g, b, line) ==
              /\ Chk("C15.TreeIsMinimal", line, BgMinimal(x, b))
              /\ Chk("C15.TreeOriented", line, BgOriented(x, b))
              /\ (key \in DOMAIN memo) => Chk("C15.SameWeightAsOtherMethod", line, memo[key] = BgSortedWeights(b))
-        /\ memo' = IF key \in DOMAIN memo THEN memo ELSE (key :> BgSortedWeights(b)) @@ memo
+        /\ memo' = IF key \in DOMAIN memo \/ ~BgWellFormed(x, b) THEN memo ELSE (key :> BgSortedWeights(b)) @@ memo
   /\ UNCHANGED <<grid, graphs>>
 
 SnapMutate(g, nm, threw, line) ==
